@@ -352,6 +352,21 @@ def oracle_object(family, value):
                 return ("invalid-lookup", "%s.lookup(%r) = %r" % (kind, list(kw), r))
         if obj.lookup(tags, default=lambda: 7) != 7:
             return ("invalid-lookup", "%s.lookup callable default not called" % kind)
+        # the same calls by POSITION, in the documented order (language_tags, default_range, default_tag, default),
+        # which is the order of the valid header's lookup too
+        for args, want_r in (((tags, "fr", "zz", sentinel), "zz"), ((tags, "fr", None, sentinel), sentinel),
+                             ((tags, None, "zz"), "zz"), ((tags, "fr", None, lambda: 7), 7), ((tags, None, None, sentinel), sentinel)):
+            try:
+                r = obj.lookup(*args)
+            except Exception as e:  # noqa
+                return ("invalid-lookup", "%s.lookup(*%r) raised %s" % (kind, [a if isinstance(a, (str, list, type(None))) else "<obj>" for a in args], type(e).__name__))
+            if r is not want_r and r != want_r:
+                return ("invalid-lookup", "%s.lookup called by position %r = %r" %
+                        (kind, [a if isinstance(a, (str, list, type(None))) else "<obj>" for a in args], r))
+        import inspect
+        from webob.acceptparse import AcceptLanguageValidHeader
+        if list(inspect.signature(type(obj).lookup).parameters) != list(inspect.signature(AcceptLanguageValidHeader.lookup).parameters):
+            return ("invalid-lookup", "%s.lookup and AcceptLanguageValidHeader.lookup take their parameters in different orders" % kind)
     return None
 
 
